@@ -72,38 +72,6 @@ Fixpoint spec_init (dflt : style -> ty -> option rhs -> fdef) (ds : list decl) (
   | _ :: rest => spec_init dflt rest args r
   end.
 
-(* the default a declaration DECLARES (property statement) *)
-Definition declared_default (st : style) (t : ty) (r : option rhs) : fdef :=
-  match st with
-  | PubUnder | UnderPub => rhs_default t r
-  | PubPub | UnderUnder => dfa t
-  end.
-
-(* the region where the pinned code honours it (finding F22) *)
-Definition safe_decl (d : decl) : bool :=
-  match d with
-  | DProp UnderPub _ t (Some (RVal _)) => match fd_factory (dfa t) with Some _ => false | None => true end
-  | _ => true
-  end.
-
-Lemma eff_declared st x t r : safe_decl (DProp st x t r) = true -> eff_default st t r = declared_default st t r.
-Proof.
-  destruct st; cbn; auto. destruct r as [[v|fd]|]; auto.
-  unfold fd_set_default, fd_def. destruct (fd_factory (dfa t)); [discriminate|reflexivity].
-Qed.
-
-Lemma spec_init_safe ds args : forall r,
-  forallb safe_decl ds = true -> spec_init eff_default ds args r = spec_init declared_default ds args r.
-Proof.
-  induction ds as [|d rest IH]; intros r H; cbn; auto.
-  cbn in H. apply andb_true_iff in H as [Hd Hr].
-  destruct d as [st x t rh|x t rh|x|x]; auto.
-  - rewrite (eff_declared st x t rh Hd). destruct (is_classvar t); auto.
-    destruct (match dget x args with Some v => _ | None => _ end). auto.
-  - destruct (is_classvar t); auto. destruct (dget x args); auto.
-    destruct (rhs_fdefault rh); auto. destruct (call_factory f (nxt r)). auto.
-Qed.
-
 (* ---- the class --------------------------------------------------------------------------- *)
 Section Class.
 Variable ds : list decl.
